@@ -34,6 +34,8 @@ struct Run {
 	std::string client_log, server_log;
 	bool exited = false;
 	bool busy = false, stream_stop = false; int n_stream = 0;
+	int up_codec = 0, up_frag = 0;   // upstream codec and exact size of a non-final upstream fragment, read off the wire
+	int n_crafted = 0;
 	std::vector<std::string> classes;
 };
 
@@ -144,6 +146,17 @@ inline void run_tunnel(Tape &t, Mode mode, Run &R)
 			if (refproto::decode_query(dg.data, c.domain, q) && (q.cmd == 'n' || q.cmd == 'N')) {
 				Bytes b = ref::codec_decode(0, q.rest, true);
 				if (b.size() >= 3) R.down_frag = (b[1] << 8) | b[2];
+			}
+			refproto::QAck qa;
+			if (q.ok && refproto::query_ack(q, qa) && qa.is_data && !qa.last && q.rest.size() > 4) {
+				Bytes chunk = ref::codec_decode(R.up_codec, q.rest.substr(4), true);
+				if ((int)chunk.size() > R.up_frag) R.up_frag = (int)chunk.size();
+			}
+		} else if (dg.from_inst == 0) {
+			refproto::Answer a;
+			if (refproto::decode_answer(dg.data, a) && a.ok && !a.qname.empty() && tolower((unsigned char)a.qname[0]) == 's') {
+				std::string pl(a.payload.begin(), a.payload.end());
+				if (pl == "Base32") R.up_codec = 0; else if (pl == "Base64") R.up_codec = 1; else if (pl == "Base64u") R.up_codec = 2; else if (pl == "Base128") R.up_codec = 3;
 			}
 		}
 	};
@@ -290,6 +303,26 @@ inline void run_tunnel(Tape &t, Mode mode, Run &R)
 		sim::W.run_until(until);
 		while (next < R.offers.size() && R.offers[next].at <= sim::W.now) {
 			Offer &o = R.offers[next++];
+			// Adversarial content (faulty mode, one offer in six once the fragment sizes are known): an incompressible packet, which zlib
+			// stores verbatim, carrying a complete zlib stream of ANOTHER packet exactly where the second fragment begins.  If a receiver
+			// ever assembles the packet without its first fragment, zlib accepts the rest and a packet nobody sent comes out.
+			if (mode == FAULTY && !c.raw_mode && (o.pkt.size() & 7) < 2 && o.pkt.size() >= 24) {
+				int F = o.side < 0 ? R.down_frag : R.up_frag;
+				if (F >= 40 && F <= 1100 && (o.side < 0 ? (o.dst >= 0 && o.dst < 9) : o.dst < 0)) {
+					Bytes qbody(8 + (o.pkt.size() % 24)); for (size_t k = 0; k < qbody.size(); k++) qbody[k] = (uint8_t)(0x51 + k);
+					Bytes Q = scn::tun_packet(Bytes(o.pkt.begin() + 20, o.pkt.begin() + 24), Bytes(o.pkt.begin() + 16, o.pkt.begin() + 20), qbody, (uint16_t)(0x5100 + R.n_crafted));
+					Bytes zq = refproto::zcompress(Q);
+					Bytes P(o.pkt.begin(), o.pkt.begin() + 24);
+					uint32_t x = (uint32_t)(o.pkt.size() * 2654435761u) | 1;
+					while ((int)P.size() < F - 7) { x ^= x << 13; x ^= x >> 17; x ^= x << 5; P.push_back((uint8_t)(x >> 11)); }
+					if ((int)P.size() == F - 7) {
+						P.insert(P.end(), zq.begin(), zq.end());
+						for (int k = 0; k < 40; k++) { x ^= x << 13; x ^= x >> 17; x ^= x << 5; P.push_back((uint8_t)(x >> 11)); }
+						Bytes zp = refproto::zcompress(P);
+						if (zp.size() == P.size() + 11 && !memcmp(zp.data() + 7, P.data(), P.size())) { o.pkt = P; o.judged = false; R.n_crafted++; }
+					}
+				}
+			}
 			sim::W.offer_tun(o.side < 0 ? s.srv : s.cli[o.side], o.pkt);
 		}
 		if (next >= R.offers.size() && mode != CLEAN && mode != REDELIVER) { sim::W.run_until(horizon); break; }
@@ -372,6 +405,7 @@ inline void run_tunnel(Tape &t, Mode mode, Run &R)
 			}
 		}
 	}
+	if (R.n_crafted) R.classes.push_back("crafted-zlib-stream-at-the-fragment-boundary");
 	if (R.fn.n_drop + R.fn.n_dup + R.fn.n_delay > 0) R.classes.push_back("faults-hit");
 	if (R.multi_frag_delivered) R.classes.push_back("multi-fragment-delivered");
 	if (R.delivered >= 9) R.classes.push_back("seqno-wrap");
